@@ -66,6 +66,18 @@ def spellings(rng, s, a, v):
         out.append(("variable-default-overridden", ("var", "x"), [("x", t, values.gen_literal(rng, s, t, None, 1))], {"x": v}))
     else:
         out.append(("variable-default-null", ("var", "x"), [("x", t, ("null",))], {}))
+    # a bare object literal standing for a one-element list, with a variable inside it
+    itx = item_type(t)
+    if itx is not None and isinstance(v, list) and len(v) == 1 and isinstance(v[0], dict) and v[0]:
+        tdx = s.types.get(named_of(itx))
+        itn = itx[1] if itx[0] == "NN" else itx
+        if tdx is not None and tdx.kind == "INPUT_OBJECT" and itn[0] == "N":
+            k = rng.choice(sorted(v[0]))
+            ftx = tdx.field(k).type
+            if v[0][k] is not None or not is_nn(ftx):
+                olit = values.plain_to_literal(rng, s, itx, v[0])
+                fields = [(n, (("var", "y") if n == k else x)) for n, x in olit[1]]
+                out.append(("bare-object-with-nested-variable-for-list", ("object", fields), [("y", ftx, NODEF)], {"y": v[0][k]}))
     uv = I.unwrap_singletons(rng, t, v, p=1.0)
     if canon(uv) != canon(v):
         out.append(("literal-bare-element-for-list", values.plain_to_literal(rng, s, t, uv), [], {}))
@@ -116,12 +128,21 @@ def build(rng, s, target, label, lit, vardefs, variables):
     if s.is_composite(named_of(f.type)):
         sel.selset = [docgen.FieldSel("__typename")]
     sib = docgen.FieldSel("__typename", alias="sib")
+    twin = None
+    if kind == "field" and "twin_" in variables:
+        # the same field once more under another key: both calls must receive equal, independent argument values
+        import copy as _copy
+        twin = _copy.deepcopy(sel)
+        twin.alias = "t2"
     vardefs = list(vardefs)
     if "z_" in variables:
         # an unrelated, supplied variable: the variables object is not empty even when the nested one is absent
         vardefs.append(("z_", NN(N("Boolean")), NODEF))
         sib.directives = [("include", [("if", ("var", "z_"))])]
-    doc.ops.append(docgen.Op("query", None, [sel, sib] if rng.random() < 0.5 else [sib, sel], list(vardefs)))
+    sels = [sel, sib] if rng.random() < 0.5 else [sib, sel]
+    if twin is not None:
+        sels.append(twin)
+    doc.ops.append(docgen.Op("query", None, sels, list(vardefs)))
     doc.order = [("op", 0)]
     docgen.print_doc(doc, rng, {"multiline": False, "nl": "\n", "shorthand": True})
     return doc
@@ -145,10 +166,14 @@ async def run_target(ctx, rng, s, b, target, v):
     for label, lit, vardefs, variables in spellings(rng, s, a, v):
         if rng.random() < 0.5:
             variables = dict(variables, z_=True)
-        doc = build(rng, s, target, label, lit, vardefs, variables)
+        twin = kind == "field" and rng.random() < 0.35
+        doc = build(rng, s, target, label, lit, vardefs, dict(variables, twin_=True) if twin else variables)
         req = X.Request(doc, doc.text, doc.ops[0], variables, wseed, use_root=False, pass_opname=False)
         case = dict(req.describe(), sdl=b.sdl, spelling=label, target="%s %s.%s" % (kind, f.name, a.name))
         w_ref, w_eng = X.make_worlds(s, req)
+        if twin and not vardefs:     # constants / defaults only: a variable's coerced value is legitimately one shared object
+            w_eng.mutate_args = True     # the first call scribbles over what it received; the twin must not see it
+            st.inc("twin-calls-with-scribbling-resolver")
         try:
             ref = X.run_reference(s, req, w_ref)
         except refexec.RefBug:
